@@ -20,7 +20,7 @@
 //   symm default | ignore | custom      (custom: followed by `iom <k> <k x (coef nops (dag idx)*)>` lines)
 //   iom <nterms> { <coef> <nops> { <dag> <idx> } }
 //   beta <b>
-//   trunc <eps>
+//   trunc <eps>                          -- may be repeated: truncateBlocks is then called once per line, in order, on the same DensityMatrix
 //   end                                  -- end of the model part
 #ifndef PV_ED_COMMON_H
 #define PV_ED_COMMON_H
@@ -67,6 +67,7 @@ struct Scenario {
     std::vector<Operator> ioms;
     double beta, trunc;
     bool has_trunc;
+    std::vector<double> truncs;      // every `trunc` line, in order
     Scenario() : order_spins(false), symm("default"), beta(1.0), trunc(0.0), has_trunc(false) {}
 };
 
@@ -85,7 +86,7 @@ inline bool read_scenario(std::istream& in, Scenario& sc) {
         if (t[0] == "order_spins") sc.order_spins = atoi(t[1].c_str()) != 0;
         else if (t[0] == "symm") sc.symm = t[1];
         else if (t[0] == "beta") sc.beta = atof(t[1].c_str());
-        else if (t[0] == "trunc") { sc.trunc = atof(t[1].c_str()); sc.has_trunc = true; }
+        else if (t[0] == "trunc") { sc.trunc = atof(t[1].c_str()); sc.has_trunc = true; sc.truncs.push_back(sc.trunc); }
         else if (t[0] == "iom") {
             Operator op;
             size_t p = 1;
@@ -197,7 +198,7 @@ struct ED {
             rho = new DensityMatrix(*S, *H, sc.beta);
             rho->prepare();
             rho->compute();
-            if (sc.has_trunc) rho->truncateBlocks(sc.trunc, false);
+            for (size_t ti = 0; ti < sc.truncs.size(); ++ti) rho->truncateBlocks(sc.truncs[ti], false);
             if (upto == "dm") return true;
             stage = "ops";
             Ops = new FieldOperatorContainer(*Idx, *S, *H);
